@@ -271,6 +271,7 @@ type Interp struct {
 	pending    []pendingChk
 	flushing   bool
 	rb         map[int]float64
+	rocTab     map[*Value][][2]*Term
 }
 
 type ufApp struct {
@@ -357,6 +358,7 @@ func (in *Interp) runPath(prefix []decision) {
 	in.pending = nil
 	in.flushing = false
 	in.rb = nil
+	in.rocTab = nil
 	in.nowSeq = 0
 	in.lastNowSec, in.lastNowNsec = nil, nil
 	in.sol.Push()
